@@ -254,7 +254,9 @@ def rule_pred(ctx):
     for kind, val, s, since, vis in info["body_paths"]:
       # per-prime test: the table entry of this prime at index modulus % p, read from the path fact (shape-independent)
       newf = s.facts[len(vis["head"].facts):]
-      key = sym.mk("key", sym.mk("attr", SELF, "quadratic_residues"), as_poly(vis["k"]))
+      QR_ = sym.mk("attr", SELF, "quadratic_residues")
+      # the prime of this pass: the key of the k-th item (`.items()` / `.keys()`), or the k-th element when the table (a dict) is iterated itself
+      key = sym.mk("idx", QR_, as_poly(vis["k"])) if isinstance(vis["iter"], Poly) and vis["iter"] == QR_ else sym.mk("key", QR_, as_poly(vis["k"]))
       want = sym.mk("idx", sym.mk("idx", sym.mk("attr", SELF, "quadratic_residues"), key), sym.mk("mod", modulus, key))
       tf = [fc for fc in newf if fc[0] in ("truthy", "falsy") and not isinstance(fc[1], Seq) and as_poly(fc[1]) == want]
       if len(tf) != 1:
@@ -262,8 +264,10 @@ def rule_pred(ctx):
         continue
       if kind == "return" and not (tf[0][0] == "falsy" and isinstance(val, Const) and val.v is False):
         probs.append("early return is not False on a non-residue")
-      if kind == "fall" and tf[0][0] != "truthy":
+      if kind in ("fall", "continue") and tf[0][0] != "truthy":
         probs.append("the loop goes on after a non-residue")
+      if kind not in ("fall", "continue", "return"):
+        probs.append("loop over the residue tables left by `%s`" % kind)
   roca_call = sym.mk("mcall", sym.mk("attr", SELF, "roca_key_detector"), lit("IsWeak"), modulus)
   okT = okF = False
   for kind, val, s in w.terminals:
@@ -774,7 +778,8 @@ def rule_keygen(ctx):
         IH = as_poly(vis["head"].env[ix])
         step = as_poly(s_.env[cname[0]]) - cand
         want = sym.mk("idx", P("ref", "keypair_generator.GCD_30_DELTA"), sym.mk("mod", IH, Poly.const(8)))
-        if (step - want).is_zero() and (as_poly(s_.env[ix]) - IH - 1).is_zero():
+        want2 = sym.mk("idx", P("ref", "keypair_generator.GCD_30_DELTA"), sym.mk("band", *sorted([IH, Poly.const(7)], key=repr)))     # x & 7 == x % 8
+        if ((step - want).is_zero() or (step - want2).is_zero()) and (as_poly(s_.env[ix]) - IH - 1).is_zero():
           okp = True
     conf = False
     for kind, val, s_ in wg.terminals:
